@@ -114,6 +114,12 @@ class LabelSpace(Subspace):
             "array2d": (lambda: np.column_stack([V, V2]), [py, py2], "frame", None, ["_arr_0", "_arr_1"]),
             "plframe": (lambda: pl.DataFrame({"p": V, "q": V2}), [py, py2], "frame", None, ["p", "q"]),
             "plseries": (lambda: pl.Series("pv", V), [py], "series", "pv", None),
+            # falsy but legitimate labels: the integer 0, the float 0.0, False
+            "series_named_0": (lambda: pd.Series(V, name=0), [py], "series", 0, None),
+            "frame_intcols": (lambda: pd.DataFrame(np.column_stack([V, V2])), [py, py2], "frame", None, ["0", "1"]),
+            "dict_intkeys": (lambda: {1: V, 0: V2}, [py, py2], "frame", None, ["1", "0"]),
+            "list_named_0": (lambda: [pd.Series(V2, name=0.0), pd.Series(V, name="z")], [py2, py], "frame",
+                             None, ["0.0", "z"]),
         }
         use = case.get("containers") or list(containers)
         seams = env.seams()
@@ -213,7 +219,7 @@ def subspaces(tier, seed):
     S = LabelSpace
     sp = []
     h = 4 if q else 5
-    few = ["ndarray", "series_named", "list2", "dict"]
+    few = ["ndarray", "series_named", "list2", "dict", "series_named_0", "frame_intcols"]
     sp.append(S(f"int-unnamed-n1to{h}", 3, 1, h, seed=seed, containers=few if q else None))
     sp.append(S("int-named-allcontainers-n1to3", 3, 1, 3, naming="named", seed=seed))
     for kk in ("float", "str_obj", "cat", "bool", "dt_ns"):
